@@ -91,7 +91,7 @@ def run(ctx):
     # ---- arbitrary positive pairs: structure only -------------------------------
     for cid, rng in ctx.cases([('arb', i) for i in range(n // 2)]):
         mon.cid = cid
-        k = int(rng.integers(3, 11))
+        k = int(rng.integers(3, 11)) if cid[1] % 20 != 6 else int(rng.integers(30, 400))      # now and then very many populations
         rfi = np.sort(np.exp(rng.uniform(0, 12, size=k)))
         mef = np.sort(np.exp(rng.uniform(2, 15, size=k)))
         shuffled = rng.random() < 0.2
